@@ -344,6 +344,37 @@ def ob_global_arrays(env):
                 env.claim_eq("global_upper_left_corners=region_corner[i,j+1]", g.upper_left_corners[X, Y], a.corners[i, j + 1])
 
 
+def ob_file_variables(env):
+    """BoutMesh.writeArray / writeCorners: the variable written under each documented name is the matching location of the global array,
+    with the extra last row/column of the face and corner arrays dropped"""
+    nx, ny = 2, 2
+    with sym_numpy(env, mla_mod, mesh_mod):
+        a = MultiLocationArray(nx, ny)
+        for loc in ("centre", "xlow", "ylow", "corners", "lower_right_corners", "upper_right_corners", "upper_left_corners"):
+            arr = getattr(a, loc)
+            for idx in numpy.ndindex(*arr.shape):
+                arr[idx] = env.real("g_%s_%d_%d" % (loc, idx[0], idx[1]))
+        a.attributes = {"bout_type": "Field2D"}
+        written = {}
+        f = types.SimpleNamespace(write=lambda name, value: written.__setitem__(name, numpy.asarray(value)))
+        me = mesh_mod.BoutMesh.__new__(mesh_mod.BoutMesh)
+        me.writeArray("Rxy", a, f)
+        me.writeCorners("Rxy", a, f)
+    env.witness("written")
+    env.claim("documented_variable_names", sorted(written) == sorted(["Rxy", "Rxy_xlow", "Rxy_ylow", "Rxy_corners", "Rxy_lower_right_corners",
+                                                                      "Rxy_upper_right_corners", "Rxy_upper_left_corners"]))
+    src = {"Rxy": a.centre, "Rxy_xlow": a.xlow, "Rxy_ylow": a.ylow, "Rxy_corners": a.corners, "Rxy_lower_right_corners": a.lower_right_corners,
+           "Rxy_upper_right_corners": a.upper_right_corners, "Rxy_upper_left_corners": a.upper_left_corners}
+    for name, arr in src.items():
+        w = written.get(name)
+        env.claim("shape_is_nx_by_ny:" + name, w is not None and w.shape == (nx, ny))
+        if w is None or w.shape != (nx, ny):
+            continue
+        for i in range(nx):
+            for j in range(ny):
+                env.claim_eq("file_variable_is_the_matching_location:" + name, w[i, j], arr[i, j])
+
+
 def _mk_rzboundary(has_upper):
     """getRZBoundary: the last ylow / corner row of a region becomes the POINT (both R and Z) of its upper neighbour's first row, so
     that it lies on the flux surface the neighbour's point lies on; everything else, and regions without an upper neighbour, untouched"""
@@ -388,6 +419,10 @@ def _mk_rzboundary(has_upper):
 OBLIGATIONS.append(Ob("global_arrays_from_regions", ob_global_arrays, tier="quick", family="addFromRegions", encodes=["hypnotoad.core.mesh:BoutMesh.geometry"],
                       desc="global centre/xlow/ylow/corner arrays (and the lower-right, upper-right, upper-left corner variants) hold each region's value at the matching local index",
                       bounds="2x2 block layout of regions with sizes 1x2, 2x2, 1x1, 2x1; all values symbolic"))
+OBLIGATIONS.append(Ob("file_variables_from_global_arrays", ob_file_variables, tier="quick", family="writeArray",
+                      encodes=["hypnotoad.core.mesh:BoutMesh.writeArray", "hypnotoad.core.mesh:BoutMesh.writeCorners"],
+                      desc="Rxy, Rxy_xlow, Rxy_ylow, Rxy_corners and the three other corner variables are the matching locations, each nx by ny", stubs=["DataFile.write -> recorder"],
+                      bounds="nx=ny=2, all values symbolic"))
 for _u in (True, False):
     OBLIGATIONS.append(Ob("getRZBoundary_%s" % ("with_upper_neighbour" if _u else "at_upper_target"), _mk_rzboundary(_u), tier="quick", family="getRZBoundary",
                           encodes=["hypnotoad.core.mesh:MeshRegion.getRZBoundary"],
